@@ -667,7 +667,7 @@ func (x *c03ctx) composed(st *c01State, v6 bool, sp, dp uint16, n int) {
 
 func c03Run(c *core.Ctx, args []string) {
 	c.Res.Level = "exploration"
-	c.Res.Rule = "cartesian products of boundary alphabets: 4 MACs, 4 IPv4, 4 IPv6 addresses, {0,1,255,256,65535} for ports/ids/seq, ttl {0,1,64,255}, xid 4 values, every payload length 0..64 and the MTU boundary set (thorough: 0..300), buffer capacity {minimum-1, minimum, minimum+payload-1, minimum+payload, EthMaxSize} carved from a guarded array, Set and Append variants; ARP op x address pairs; all 8 NA flag combinations; DNS names of 0..4 labels of length 1 and 63 (decoded by an independent parser and by the library); every DHCP option map of <=2 (thorough <=3) options from 12 codes x value lengths {0,1,4,255} x every parameter-request order of <=2 (thorough <=3) codes; composed Ether/IP/UDP frames over all ordered port pairs. distinct non-trivial = distinct encoded byte strings"
+	c.Res.Rule = "(DNS queries additionally for every encoded name length 3..255) cartesian products of boundary alphabets: 4 MACs, 4 IPv4, 4 IPv6 addresses, {0,1,255,256,65535} for ports/ids/seq, ttl {0,1,64,255}, xid 4 values, every payload length 0..64 and the MTU boundary set (thorough: 0..300), buffer capacity {minimum-1, minimum, minimum+payload-1, minimum+payload, EthMaxSize} carved from a guarded array, Set and Append variants; ARP op x address pairs; all 8 NA flag combinations; DNS names of 0..4 labels of length 1 and 63 (decoded by an independent parser and by the library); every DHCP option map of <=2 (thorough <=3) options from 12 codes x value lengths {0,1,4,255} x every parameter-request order of <=2 (thorough <=3) codes; composed Ether/IP/UDP frames over all ordered port pairs. distinct non-trivial = distinct encoded byte strings"
 	c.Res.Assumptions = []string{"decoding is done by refnet (independent) and by the library's own views", "DHCP buffers are sized so that the encoding fits (the property quantifies over option maps whose encoding fits)"}
 	x := &c03ctx{c}
 	st := &c01State{}
